@@ -56,13 +56,20 @@ template<int fixed_mode> static void run_analyze() {
 #else
     if (n >= 3) { VWITNESS("learnt-3-literals"); }
 #endif
-#ifndef SS_NO_THEORY
+#if !defined(SS_NO_THEORY) && !defined(SS_SHAPE_LIMS)
     if (g_nth > 0) { VWITNESS("resolved-with-theory-reason"); }
     if (trsz < g_n) { VWITNESS("trail-backtracked-for-theory-reason"); }
 #endif
     if constexpr (fixed_mode != 0) { if (tcsz > n) { VWITNESS("minimisation-removed-a-literal"); } }
-#if SS_NV >= 4 && !defined(SS_NO_THEORY)
+#if SS_NV >= 4 && !defined(SS_NO_THEORY) && !defined(SS_SHAPE_LIMS)
     if constexpr (fixed_mode != 0) { if (tcsz > n && g_nth > 0) { VWITNESS("minimisation-and-theory-reason"); } }   // needs >= 4 variables
+#endif
+#ifdef SS_SHAPE_LIMS
+    {   // a theory-propagated literal of a lower level occurs (negated) in the reason of a literal of the un-minimised clause
+        bool fake_behind = false;
+        for (int i = 1; i <= SS_NV; i++) if (i < tcsz) { int q = lvar(S->analyze_toclear[i].x); if (q >= 0 && q < SS_NV && g_kind[q] == K_CLAUSE) for (int j = 1; j < SS_ML; j++) if (j < g_csz[q] && g_kind[lvar(g_clit[q][j])] == K_FAKE) fake_behind = true; }
+        if (fake_behind) { VWITNESS("theory-propagated-literal-behind-a-learnt-literal"); if (tcsz > n) { VWITNESS("minimised-next-to-a-theory-propagated-literal"); } }
+    }
 #endif
 }
 
